@@ -2594,6 +2594,14 @@ func (db *DB) checkpointWithExecutor(ctx context.Context, mode string, exec *syn
 		return false, err
 	}
 
+	// A TRUNCATE checkpoint may have backfilled and removed frames that were
+	// committed after the copy above. The boundary snapshot below accounts
+	// for them, but if a step before it fails (e.g. SQLITE_BUSY), the next
+	// sync must not take the truncated WAL for an expected one.
+	if mode == CheckpointModeTruncate {
+		exec.state.syncedToWALEnd = false
+	}
+
 	// Re-read the WAL header before writing to the WAL again. If it already
 	// differs, a commit restarted the WAL after the copy above and was then
 	// backfilled by this checkpoint, so its frame count belongs to a WAL
